@@ -2,7 +2,7 @@
    Model: theories/Query.v (internal/query/conditions.go after fixes/C03-*.patch, C14-*.patch).
    Proofs: QuerySort, QueryClean, QueryFlags, QueryHosts, QueryOps, QuerySet, QueryAtoms, QueryMain, QueryTotal. *)
 From Coq Require Import List NArith ZArith Bool Permutation.
-From Pk Require Import Query QuerySort QueryClean QueryFlags QueryHosts QueryOps QuerySet QueryAtoms QueryMain QueryTotal.
+From Pk Require Import Query QuerySort QueryClean QueryFlags QueryHosts QueryOps QuerySet QueryAtoms QueryMain QueryTotal QuerySeq.
 Import ListNotations.
 
 (* (1) Meaning is preserved. For every valuation (one stream per sub-query name with ids, ports, byte counts >= 0,
@@ -22,6 +22,15 @@ Theorem c03_impossible_only_if_unsatisfiable_partial :
     then_free e = true -> expr_wf e -> parse_conditions e = [] ->
     forall v : valuation, val_ok v -> ids_ok v -> sem v e = false.
 Proof. exact impossible_only_if_unsatisfiable. Qed.
+
+(* (1') THEN on sequences of plain and negated payload filters of any length,
+   `l1 then l2 then ... then ln` with li ::= [cs]data:x | -[cs]data:x : the normal form built by Conditions.then
+   (with the rule of fixes/C03-then-after-negated-filter) means what the text says, for every payload oracle. *)
+Theorem c03_then_sequences_preserve_meaning :
+  forall (v : valuation) (first : lit) (rest : list lit),
+    val_ok v -> ids_ok v ->
+    eval_set v (parse_conditions (seq_expr first rest)) = sem v (seq_expr first rest).
+Proof. exact sequences_preserve_meaning. Qed.
 
 (* The building blocks hold at full strength, sequences of any length included. *)
 
